@@ -153,7 +153,7 @@ func ModelArith(op string, c dec.Ctx, x, y dec.D) Expect {
 		return e
 	}
 	if nearSystemLimit(dec.AdjExact(ex)) {
-			limitZone = true
+		limitZone = true
 	}
 	e := fromRounded(dec.RoundOnce(ex, c))
 	e.SystemLimitOK = limitZone
